@@ -250,6 +250,92 @@ def compares_none(a, b):
     return b
 
 
+# ---- keyword arguments of nested calls (seeded C06-7: keyword values appended positionally in written order) ----
+def mm3(s, km, vmax):
+    return vmax * s / (km + s)
+
+
+def kw_param_order(s, k, v):
+    return mm3(s, km=k, vmax=v)
+
+
+def kw_other_order(s, k, v):
+    return mm3(s, vmax=v, km=k)  # CPython binds by name: mm3(s, k, v)
+
+
+def kw_only_call(s, k, v):
+    return mm3(vmax=v, s=s, km=k)
+
+
+def kw_with_expressions(s, k, v):
+    if s > 1:
+        return mm3(s, vmax=2 * v, km=k + 1)
+    return mm3(s, km=k, vmax=v)
+
+
+def kw_in_assignment(s, k, v):
+    r = mm3(km=k, vmax=v, s=s)
+    return r + diff2(b=s, a=k)
+
+
+# ---- a local named like a module constant, bound from something without an expression (seeded C06-6: the None
+# is stored and the later read falls through to the module constant) ----
+vmax = 10.0
+gain = 0.5
+order = 3.0
+
+
+class Settings:
+    order = 2  # an int, not a float: not a translatable constant
+
+
+def _damped(x):
+    for _ in range(3):  # a loop: outside the supported subset
+        x = x / 2
+    return x
+
+
+def mm_rounded(s, e0, kcat):
+    vmax = round(kcat * e0, 6)  # shadows the module constant; round is no function of the module
+    return vmax * s / (1.0 + s)
+
+
+def shadow_abs(s, e0):
+    vmax = abs(e0 * s)
+    return vmax * s / (1.0 + s)
+
+
+def shadow_default(s):
+    vmax = saturation(s)  # relies on the default: the nested translation returns None
+    return vmax * s
+
+
+def feedback(s, p):
+    gain = _damped(p)  # the helper is untranslatable
+    if s > 1:
+        return gain * s
+    return gain
+
+
+def power_law(s, k):
+    order = Settings.order  # the attribute is an int
+    return k * s**order
+
+
+def shadow_tuple(s, e0, kcat):
+    vmax, half = round(kcat * e0, 6), 0.5  # the tuple form
+    return vmax * s / (half + s)
+
+
+def shadow_control_constant(s):
+    return vmax * s / (1.0 + s)  # the module constant really is what Python uses here
+
+
+def shadow_control_local(s, e0, kcat):
+    vmax = kcat * e0  # a translatable local shadows the module constant
+    return vmax * s / (1.0 + s)
+
+
 # witnesses of recorded (unrepaired) findings: id -> (function, model_args)
 KNOWN = {
     "sympy-mod-common-factor": ("mod_common_factor", None),
@@ -297,4 +383,19 @@ WITNESSES = [
     ("call_two_defaults", None),
     ("call_two_defaults", ["b", "a"]),
     ("saturation", ["n", "s"]),
+    ("kw_param_order", None),
+    ("kw_other_order", None),
+    ("kw_other_order", ["v", "s", "k"]),
+    ("kw_only_call", ["x", "y", "z"]),
+    ("kw_with_expressions", None),
+    ("kw_in_assignment", ["k", "s", "v"]),
+    ("mm_rounded", None),
+    ("mm_rounded", ["kcat", "s", "e0"]),
+    ("shadow_abs", None),
+    ("shadow_default", ["x"]),
+    ("feedback", None),
+    ("power_law", None),
+    ("shadow_tuple", None),
+    ("shadow_control_constant", None),
+    ("shadow_control_local", ["e0", "kcat", "s"]),
 ]
